@@ -1,6 +1,7 @@
 package c01
 
 import (
+	"bytes"
 	"fmt"
 	"os"
 	"sort"
@@ -331,6 +332,42 @@ func runCase(r *mon.Rec, stream string, idx int) {
 	default:
 		rng := r.Rand(stream, idx)
 		p, e := gen4.Packet(rng, 12)
+		if rng.IntN(4) == 0 && len(p.Options) > 0 {
+			// the packet's byte slices are windows of ONE buffer of the caller's (fields cut out of a received frame, a
+			// record of a lease table): hardware address, then the addresses, then an option's value, back to back, each
+			// slice's capacity reaching over what follows.  Encoding reads them; it has no business writing there.
+			var codes []int
+			for c := range p.Options {
+				codes = append(codes, int(c))
+			}
+			sort.Ints(codes)
+			c := uint8(codes[rng.IntN(len(codes))])
+			var buf []byte
+			cut := func(b []byte) (int, int) {
+				o := len(buf)
+				buf = append(buf, b...)
+				return o, len(buf)
+			}
+			h0, h1 := cut(p.ClientHWAddr)
+			y0, y1 := cut(p.YourIPAddr)
+			v0, v1 := cut(p.Options[c])
+			buf = append(buf, 0xa5, 0x5a, 0xa5)
+			if p.ClientHWAddr != nil {
+				p.ClientHWAddr = buf[h0:h1]
+			}
+			if p.YourIPAddr != nil {
+				p.YourIPAddr = buf[y0:y1]
+			}
+			if p.Options[c] != nil {
+				p.Options[c] = buf[v0:v1]
+			}
+			keep := append([]byte{}, buf...)
+			check(r, stream, idx, p, e)
+			if !bytes.Equal(buf, keep) {
+				r.Violate("C01:encoding-writes-into-the-packets-storage", "after encoding, the caller's buffer that holds the packet's hardware address, address and an option value back to back has changed", replay{Stream: stream, Idx: idx})
+			}
+			return
+		}
 		check(r, stream, idx, p, e)
 	}
 }
